@@ -21,7 +21,7 @@ Axioms(x, y) == /\ x[1] + x[5] + x[3] = 1              \* exactly one of < == >
                 /\ y[1] + y[5] + y[3] = 1 /\ y[2] = Bit(y[1] = 1 \/ y[5] = 1) /\ y[4] = Bit(y[3] = 1 \/ y[5] = 1) /\ y[6] = 1 - y[5]
 NumKinds == {"u64", "i64", "real"}
 ValOK(e) == /\ Axioms(e.rab, e.rba)
-            /\ (e.ka = e.kb /\ e.ka \in NumKinds) => e.rab = Six(e.ma < e.mb, e.ma = e.mb, e.ma > e.mb)
+            /\ (e.ka \in NumKinds /\ e.kb \in NumKinds) => e.rab = Six(e.ma < e.mb, e.ma = e.mb, e.ma > e.mb)     \* numbers compare by value, whatever their kinds (m = rank of the value)
             /\ (e.ka = e.kb /\ e.ka = "str") => e.rab = Six(StrLess(e.sa, e.sb), e.sa = e.sb, StrLess(e.sb, e.sa))
 
 TableOK(e) == LET n == Len(e.lt)  L(i, j) == e.lt[i][j] = 1  E(i, j) == e.eq[i][j] = 1 IN
